@@ -2,7 +2,7 @@
 CONSTANTS MaxCalls = 2
           MaxArgs = 2
           FreeCalls = 1
-          Scope = "names"
+          Scope = "names+reals"
           Adopt = FALSE
           MaxEdits = 0
           MinEdits = 0
@@ -10,7 +10,7 @@ CONSTANTS MaxCalls = 2
           FirstOps = {"inc", "exc", "find", "one"}
           Srcs = {"live"}
           Ons = {"t", "last"}
-          NameIds = {1, 2, 3, 4, 5, 6, 8}
+          NameIds = {1, 2, 4, 5, 8}
           Gen = TRUE
 INIT Init
 NEXT NextNoEdit
